@@ -190,25 +190,14 @@ def run_c45(out, tier, seed):
 
 
 # ------------------------------------------------------------------------------------------------
-# C44  CSPTP clients survive any traffic and use only matching answers  (Csptp.tla, client part)
+# Transition tours with re-touring around failing transitions (C44, C42, C43)
 # ------------------------------------------------------------------------------------------------
-class CsptpClient(sm.SM):
-    module = "Csptp"
-    mc_module = "MC_CsptpClient"
-    crate = CRATE
-    test = "csptp_client::verif_csptp_client"
+class TourSM(sm.SM):
     which = "ext"
+    crate = CRATE
 
     def harness_cfg(self, cfgname, init_state):
         return {}
-
-    def act_sig(self, a):
-        if a["t"] == "Timeout":
-            return "Timeout"
-        p = a["p"]
-        if p["kind"] in ("resp1", "resp2", "followup") and p["match"] == "match":
-            return "Recv[%s,t3=%s,corr=%s,reqcorr=%s]" % (p["kind"], p["t3"], p["corr"], p["reqcorr"])
-        return "Recv[%s,%s]" % (p["kind"], p["match"])
 
     def model_and_replay(self, out, prop, tier, seed, cfgname, max_len=40):
         """As sm.SM.model_and_replay, plus: a transition on which the implementation fails ends its walk (a panic kills
@@ -224,7 +213,8 @@ class CsptpClient(sm.SM):
         wanted = set(i for i, e in enumerate(g.edges) if e[2]["cones"].get(prop))
         if not wanted:
             raise vf.ToolError("vacuous: no transition constrained by %s" % prop)
-        confirmed, failing = set(), set()
+        confirmed, failing, blocked = set(), set(), set()
+        self.graph = g
         steps = nwalks = 0
         for rnd in range(3):
             todo = wanted - confirmed - failing
@@ -234,7 +224,7 @@ class CsptpClient(sm.SM):
             h.ids, h.states = g.ids, g.states
             idx = []
             for i, e in enumerate(g.edges):
-                if i not in failing:
+                if i not in blocked:
                     h.out[e[0]].append(len(h.edges))
                     h.edges.append(e)
                     idx.append(i)
@@ -251,10 +241,15 @@ class CsptpClient(sm.SM):
             for r in results:
                 w = walks[r["id"]]
                 steps += r["steps_run"]
-                ok_upto = r["steps_run"] if r["fail"] is None else r["fail"]["step"]
-                confirmed.update(w[:ok_upto])
-                if r["fail"] is not None:
-                    f = r["fail"]
+                if not (r.get("fails") or r.get("fail")):
+                    confirmed.update(w[:r["steps_run"]])
+                fails = r.get("fails") or ([r["fail"]] if r.get("fail") is not None else [])
+                if fails:
+                    ok_upto = r["steps_run"] if r.get("fail") is None else r["fail"]["step"]
+                    confirmed.update(w[:ok_upto])
+                if r.get("fail") is not None:
+                    blocked.add(w[r["fail"]["step"]])
+                for f in fails:
                     e = w[f["step"]]
                     failing.add(e)
                     self.attribute(out, prop, cfgname, g.edges[e][2], f, [g.edges[x][2]["act"] for x in w[:f["step"] + 1]], "replay")
@@ -265,13 +260,27 @@ class CsptpClient(sm.SM):
         out.add("replayed_steps", steps)
         out.add("replayed_walks", nwalks)
         out.add("model_transitions_constrained_by_property", len(wanted))
-        out.add("model_transitions_confirmed_on_impl", len(confirmed & wanted))
+        out.add("model_transitions_confirmed_on_impl", len((confirmed - failing) & wanted))
         out.add("model_transitions_failing_on_impl", len(failing))
         rest = wanted - confirmed - failing
         if rest and not failing:
             raise vf.ToolError("%d model transitions could not be replayed" % len(rest))
         if rest:
             out.notes.append("%d model transitions not replayed (only reachable through failing transitions within 3 tours)" % len(rest))
+
+
+class CsptpClient(TourSM):
+    module = "Csptp"
+    mc_module = "MC_CsptpClient"
+    test = "csptp_client::verif_csptp_client"
+
+    def act_sig(self, a):
+        if a["t"] == "Timeout":
+            return "Timeout"
+        p = a["p"]
+        if p["kind"] in ("resp1", "resp2", "followup") and p["match"] == "match":
+            return "Recv[%s,t3=%s,corr=%s,reqcorr=%s]" % (p["kind"], p["t3"], p["corr"], p["reqcorr"])
+        return "Recv[%s,%s]" % (p["kind"], p["match"])
 
     def attribute(self, out, prop, cfgname, rec, fail, acts, how):
         # signature by the kind of completion rather than by every class combination: the timestamp / correction
@@ -286,6 +295,51 @@ class CsptpClient(sm.SM):
             out.violation("Csptp:client:%s:panic" % shape, detail)
             return
         sm.SM.attribute(self, out, prop, cfgname, rec, fail, acts, how)
+
+
+# ------------------------------------------------------------------------------------------------
+# C42 / C43  estimator bookkeeping and steering consistency  (Estimator.tla)
+# ------------------------------------------------------------------------------------------------
+class Estimator(TourSM):
+    module = "Estimator"
+    mc_module = "MC_Estimator"
+    test = "estimator::verif_estimator"
+
+    def act_sig(self, a):
+        return a["t"]
+
+    def attribute(self, out, prop, cfgname, rec, fail, acts, how):
+        fields = set(fail["fields"])
+        cones = rec["cones"]
+        mine = [f for f in sorted(fields) if f in cones.get(prop, [])]
+        others = [p for p, c in cones.items() if p != prop and fields & set(c)]
+        detail = {"how": how, "cfg": cfgname, "history": acts, "expected": {"post": rec["post"], "out": rec["out"]},
+                  "observed": fail.get("observed"), "panic": fail.get("panic"), "differing": sorted(fields)}
+        if mine:
+            out.violation("Estimator:%s[%s]:%s" % (rec["act"]["t"], rec["out"]["res"], ",".join(mine)), detail)
+        elif others and not (fields - set(sum((list(cones[p]) for p in others), []))):
+            out.add("failures_in_the_cone_of_other_properties_only", 1)      # e.g. F-14 (C43) seen while checking C42
+        else:
+            out.divergences.append(detail)
+            out.notes.append("divergence outside %s's cone (Estimator %s, fields %s)" % (prop, rec["act"]["t"], sorted(fields)))
+
+
+def run_estimator(out, prop, tier, seed):
+    e = Estimator()
+    e.model_and_replay(out, prop, tier, seed, tier, max_len=40)
+    out.add("traces_validated_against_impl", 0)
+    sp = os.path.join(vf.workdir("Estimator_%s" % tier), "results_%s_0.ndjson.stats" % prop)
+    st = json.load(open(sp))
+    out.add("set_frequency_calls_observed", st["set_frequency_calls"])
+    out.add("step_clock_calls_observed", st["step_clock_calls"])
+    out.add("steer_relations_evaluated", st["steer_relations_evaluated"])
+    out.add("steer_relations_skipped_numerically_degenerate", st["steer_relations_skipped_degenerate"])
+    out.add("steer_relations_nontrivial_system_clock", st["steer_relations_nontrivial_system_clock"])
+    out.add("steer_relations_nontrivial_other_clocks", st["steer_relations_nontrivial_other_clocks"])
+    if prop == "C43" and st["steer_relations_evaluated"] == 0:
+        raise vf.ToolError("C43 vacuous: no steering relation could be evaluated")
+    if prop == "C43" and st["set_frequency_calls"] + st["step_clock_calls"] == 0:
+        raise vf.ToolError("C43 vacuous: the controller never steered a mock clock")
 
 
 # ------------------------------------------------------------------------------------------------
@@ -315,12 +369,20 @@ def run(prop, tier, seed):
         out.assumptions.append("the status update of the manager (steps_removed + 1) is not exercised: no source is marked active")
         CsptpClient().model_and_replay(out, prop, tier, seed, tier, max_len=40)
         out.add("traces_validated_against_impl", 0)
+    elif prop in ("C42", "C43"):
+        out.coverage["rule"] = ("every transition of the bounded Estimator bookkeeping model constrained by the property is covered by a "
+                                "transition tour replayed on the real KalmanController/KalmanLink with recording mock clocks; estimates of "
+                                "all live clocks (clock_offset, clock_frequency: value and uncertainty) are snapshotted bitwise around every "
+                                "operation; numeric relations of C43 are evaluated by the harness with the property's tolerance")
+        out.assumptions += ["estimates are opaque tokens in the specification (DESIGN 5.4); link delays are not observable through the public API",
+                            "LinkFilterConfig has no public constructor: the harness obtains a zeroed value by type inference and sets its public fields"]
+        run_estimator(out, prop, tier, seed)
     else:
         raise vf.ToolError("no check for %s" % prop)
     return out
 
 
-PROPS = ["C41", "C45", "C44"]
+PROPS = ["C41", "C45", "C44", "C42", "C43"]
 
 _T = ("TLA+ grammar/codec specification model-checked with TLC over the bounded input-class space; every class concretised and "
       "replayed on the real code through the stand-alone harness (harness/ext)")
@@ -331,6 +393,27 @@ MANIFEST = {
                      "enumeration, parse->serialise prefix, no panic; plus seeded byte-level mutation for parse totality.",
                 note="bounded grammar; canonical field values only; byte-level totality is exploration (seeded mutations), not a proof; "
                      "error kinds (Invalid vs BufferTooShort) and the acceptance of non-serialised byte strings are outside the cone"),
+    "C42": dict(level="model_checking", technique="TLA+ bookkeeping state machine with opaque estimate tokens (spec/Estimator.tla) model-checked "
+                "with TLC; every explored transition replayed on the real KalmanController/KalmanLink (transition tour), estimates "
+                "snapshotted bitwise around every operation",
+                design_ref="5.4, 6.11, 7 (C42)", engine="tlc+replay",
+                text="<= 3 steered clocks + external clock, <= 2 links (tracked/untracked), all add/remove operations incl. every failing "
+                     "variant (unknown, system, in-use, equal, both-external identifiers), measurements (seeding distinct estimates; the "
+                     "model tracks which clocks are seeded) and a backwards time step: other clocks' clock_offset / clock_frequency (value "
+                     "and uncertainty) bit-identical, failing operations change nothing.",
+                note="estimates observed through the controller's public queries only (link delays are not exposed); removal of an "
+                     "in-use external clock and duplicate links are not generated (outcome unspecified); error kinds outside the cone"),
+    "C43": dict(level="model_checking", technique="TLA+ bookkeeping state machine (spec/Estimator.tla) model-checked with TLC; transition "
+                "tour replayed on the real KalmanController with recording mock clocks; numeric relations evaluated by the harness with "
+                "the property's tolerance (1e-9 relative + 1 ns)",
+                design_ref="5.4, 6.11, 7 (C43), 9 (F-14)", engine="tlc+replay",
+                text="frequency query right after add_clock reports 0 +- max_frequency (not the offset 0 +- 1e18); every set_frequency on "
+                     "a mock clock within its max frequency (all measurement and steering steps); on pure steering steps (cold link: the "
+                     "measurement leaves the estimates alone) each clock's offset / frequency estimate moves by the applied step / "
+                     "frequency change (+ frequency x elapsed time).",
+                note="the move-by-step relation is evaluated only in the numerically sane regime (finite, |offset| < 1e6 s); while F-14 is "
+                     "open frequencies are unobservable, so pure steering steps are run without elapsed time and the relation is mostly "
+                     "trivial for non-system clocks (detection of a wrong step sign needs F-14 fixed)"),
     "C44": dict(level="model_checking", technique="TLA+ state machine (spec/Csptp.tla client part) model-checked with TLC; every explored "
                 "transition replayed on the real CsptpSource::run (transition tour, scripted socket, paused clock)",
                 design_ref="6.11, 7 (C44), 9 (F-15)", engine="tlc+replay",
